@@ -53,6 +53,29 @@ def main():
 
     _xcore.ShortCircuitingContext.make_interceptor = lambda self, original: original
 
+    # CrossHair bypasses every functools.lru_cache (so that cached results cannot hide symbolic inputs).
+    # typing / typing_extensions / libcst cache pure functions of *types* (Generic subscription, matcher
+    # tables); bypassing them makes constructing one libcst visitor cost ~4.5 s per path.  Keep the bypass
+    # for everything else (in particular the repo's own @cache loaders), re-enable the cache for those
+    # three packages only.
+    from functools import _lru_cache_wrapper
+
+    from crosshair.tracers import NoTracing as _NoTracing
+
+    def _call_lru(self, *a, **kw):
+        if not isinstance(self, _lru_cache_wrapper):
+            raise TypeError
+        mod = getattr(self.__wrapped__, "__module__", "") or ""
+        if mod.split(".")[0] in ("typing", "typing_extensions", "libcst"):
+            with _NoTracing():
+                try:
+                    return _lru_cache_wrapper.__call__(self, *a, **kw)
+                except TypeError:
+                    pass  # unhashable argument: fall through to the uncached call
+        return self.__wrapped__(*a, **kw)
+
+    _xcore._PATCH_REGISTRATIONS[_lru_cache_wrapper.__call__] = _call_lru
+
     t_imp = time.perf_counter()
     mod = importlib.import_module(mod_name)
     fn = getattr(mod, fn_name)
